@@ -17,8 +17,8 @@ CLAIMED = {
  "C01": ("Coq refinement theorems (serve over the row-level store = declarative spec_response over declared records) + per-case compile/serve/spec correspondence in Coq (vm_compute) against three real servers",
          "Machine-checked theorems about an executable model of the lookup and serve path (v1 reader, v2 closest-key reader, handler) relating it to a short declarative specification over the declared records; the model runs over the real compiled database dumps and is compared with the responses of real CDB / RocksDB-v1 / RocksDB-v2 servers on generated data files and queries, the spec with the same responses.",
          COMMON_NOTE + "Weighted address choice is compared as a sub-multiset of the right size (C11 owns the draw); parts not yet proved carry the suffix _partial in Properties/C01.v.", "DESIGN.md section 6 C01"),
- "C02": ("Coq simulation lemmas between the v1 and v2 reader models (closest-key skipping, per-request cache transparency) + pairwise comparison of three real backends on generated files",
-         "Theorems relate the v2 (sorted, closest-key) reader model to the label-by-label reader model; the check compares the projected responses of real CDB, RocksDB-v1 and RocksDB-v2 servers pairwise for every generated query and ties both reader models to the code by correspondence.",
+ "C02": ("Coq simulation theorem C02_v2_equals_v1 (closest-key reader = label-by-label reader on compiled stores, incl. seek_skip_sound and cache transparency), C02_three_backends; pairwise comparison of three real backends on generated files",
+         "Machine-checked proof that serve over the v2 (reversed, sorted) store equals serve over the v1 store for every well-formed record set, query and location (Leibniz equality of outcomes, so also no panic / no fuel exhaustion on the v2 side), that CDB equals RocksDB-v1, and that the context cache is transparent; the check compares the projected responses of real CDB, RocksDB-v1 and RocksDB-v2 servers pairwise for every generated query and ties both reader models to the code by correspondence.",
          COMMON_NOTE, "DESIGN.md section 6 C02"),
  "C03": ("Coq theorems: RocksDB range-point lookup and CDB prefix-set lookup refine longest-prefix match; map choice = exact then nearest wildcard; correspondence against Rearranger and three real backends",
          "Machine-checked refinement of the rearranger sweep (sort, stack, squash) + predecessor search and of the CDB descending prefix walk to an independent longest-prefix-match function over N < 2^128, for all laminar subnet sets and all masked clients; models tied to the real Rearranger and real CDB/RocksDB lookups on critical-set clients.",
